@@ -14,6 +14,8 @@ package keyper
 //@ func (*eonPubKeyHandler).broadcastEonPublicKey
 //@   requires pkh != nil && pkh.config != nil && pkh.config.Ethereum != nil && pkh.config.Ethereum.PrivateKey != nil && pkh.messaging != nil
 //@   event pub(content(eonPubKey.PublicKey), eonPubKey.ActivationBlock, eonPubKey.KeyperConfigIndex, eonPubKey.Eon)
+//@   // the gossiped message carries the key's own fields, each in its place
+//@   ensures ret0 == nil ==> (msg != nil && msg.InstanceId == pkh.config.InstanceID && msg.PublicKey == eonPubKey.PublicKey && msg.ActivationBlock == eonPubKey.ActivationBlock && msg.KeyperConfigIndex == eonPubKey.KeyperConfigIndex && msg.Eon == eonPubKey.Eon)
 //@   opt frame = off
 //@
 //@ // callback mode: a call of the configured EonPublicKeyHandlerFunc is the hand-over
